@@ -84,6 +84,11 @@ def run(rep):
              'overrides and every VB_* C entry) runs the generation check '
              'before its worker, so all entry points see the same cache state',
              floor=8)
+    rep.rule('R08.8', 'the single-adapter entry points stay equal to lookup() after '
+             'declaration changes: _uncached_lookup subscribes to the complete required '
+             'tuple on every exit, hit or miss, and _subscribe subscribes to EVERY '
+             'required specification not yet recorded (lookupAll()/names() recompute '
+             'from their own cache; shared with C04 R04.7 / C05 INV-4)', floor=2)
     rep.decline('none - relative to C04/C05/C07')
 
     lookup = find_def(mod, 'LookupBase.lookup')
@@ -181,3 +186,6 @@ def run(rep):
     inv5(rep, mod, None, rule='R08.7')
     cside.verify_first(rep, cside.cu(rep), rule='R08.7')
     cside.c08(rep)
+    from .C05 import subscribe_on_all_exits, subscribe_all_spec
+    subscribe_on_all_exits(rep, mod, 'R08.8', only=('_uncached_lookup',))
+    subscribe_all_spec(rep, mod, 'R08.8')
